@@ -136,6 +136,8 @@ Inductive case :=
 | CNull (vars : list label) (res : result)
 | CIdentity (g : isg) (num_reads : option nat) (pr : problem) (vars ls : list label) (conv : nat)
             (init : list (list Qc)) (seen : option result)
+(* what the sample_ising / sample_qubo mixin of a composite handed to its own sample method *)
+| CEntry (n : nat) (qubo : bool) (h : list lterm) (J : list qterm) (observed : poly)
 | CStruct (nodes : list label) (edges : list (label * label)) (vars : list label) (quad : list (label * label))
           (rejected : bool) (child_calls : nat).
 
@@ -239,6 +241,8 @@ Definition check (c : case) : bool :=
   | CNull vars res => res_equiv (null_sample vars) res
   | CIdentity g num_reads pr vars ls conv init seen =>
       check_identity g num_reads (prob_energy pr) vars ls conv init seen
+  | CEntry n qubo h J observed =>
+      poly_coeff_eqb n (if qubo then from_qubo J else ising_poly h J) observed
   | CStruct nodes edges vars quad rejected calls =>
       Bool.eqb (negb (structured nodes edges vars quad)) rejected &&
       (calls =? (if rejected then 0 else 1))%nat
